@@ -237,6 +237,6 @@ def op_replay(pid, wd, path, spec):
     return 0
 
 
-CLOSED_LOOP = {"C07", "C08"}
+CLOSED_LOOP = {"C07", "C08", "C15"}
 
 CHECKS = {p: op_check for p in FAMILY if p not in ('C03', 'C04', 'C05', 'C10', 'C09', 'C11', 'C16')}   # C03 is composed in tables.py
